@@ -6,10 +6,15 @@ stmt  : ("MK",n) ("TK",a) ("WT",) ("DO",b) ("DOF",b,n,unit) ("DOU",b,c) ("WF",n,
         ("DS",[s..]) ("DSF",[s..],n,unit) ("DSU",[s..],c) ("TRY",body,[(c,stmts)..]) ("AB",) ("BR",)
         ("CO",) ("RT",) ("WH",c,body) ("IF",c,a,b) ("TE",) ("TS",) ("RQ",c)
 program: dict(behaviors=[dict(pre,inv,body)], monitors=[body], scenarios=[dict(pre,inv,limit,termwhen,
-        monitors,compose)], objects=[b|None], rec_init, records, rec_final, termsim)
+        monitors,compose,reqs=[rid..])], objects=[b|None], rec_init, records, rec_final, termsim,
+        reqs=[(formula tokens "G > a0 X a1", [cond per atom])])   temporal requirements; atoms are numbered
+        in the order of their occurrence (= PropositionNode.atomics()), scenario["reqs"] lists the ids its
+        setup block states
         limit = None | (n, unit);  unit in "steps"|"seconds"
 """
 from fractions import Fraction
+
+import c11_formulas as F
 
 
 # ------------------------------------------------------------------ tokens for ocaml/c12/driver
@@ -91,11 +96,14 @@ def program_tokens(p, ts):
     for s in p["scenarios"]:
         out += conds_tokens(s["pre"]) + conds_tokens(s["inv"])
         out += ["N"] if s["limit"] is None else ["Q"] + q_tokens(s["limit"][0], s["limit"][1], ts)
-        out += conds_tokens(s["termwhen"]) + natlist(s["monitors"])
+        out += conds_tokens(s["termwhen"]) + natlist(s["monitors"]) + natlist(s.get("reqs", []))
         out += ["N"] if s["compose"] is None else ["Y"] + stmts_tokens(s["compose"], ts)
     out += [str(len(p["objects"]))] + [str(-1 if b is None else b) for b in p["objects"]]
     out += natlist(p["rec_init"]) + natlist(p["records"]) + natlist(p["rec_final"])
     out += conds_tokens(p["termsim"])
+    out += [str(len(p.get("reqs", [])))]
+    for toks, cs in p.get("reqs", []):
+        out += toks.split() + conds_tokens(cs)
     return out
 
 
@@ -222,6 +230,10 @@ def program_src(p):
             L.append(f"        terminate when L.tw({i}, {idx}, {c})")
         if s["limit"] is not None:
             L.append(f"        terminate after {num_src(s['limit'][0])} {s['limit'][1]}")
+        for rid in s.get("reqs", []):
+            toks, cs = p["reqs"][rid]
+            text = F.render(F.parse_tokens(toks.split()), "min", atom=lambda k, i=i, rid=rid, cs=cs: f"L.q({i}, {rid}, {k}, {cs[k]})")
+            L.append(f"        require {text}")
         for m in s["monitors"]:
             L.append(f"        require monitor M{m}()")
         if len(L) == n0:
@@ -267,8 +279,8 @@ def kinds(p):
 
 
 def empty_program(nobj=1):
-    return dict(behaviors=[], monitors=[], scenarios=[dict(pre=[], inv=[], limit=None, termwhen=[], monitors=[], compose=None)],
-                objects=[None] * nobj, rec_init=[], records=[], rec_final=[], termsim=[])
+    return dict(behaviors=[], monitors=[], scenarios=[dict(pre=[], inv=[], limit=None, termwhen=[], monitors=[], compose=None, reqs=[])],
+                objects=[None] * nobj, rec_init=[], records=[], rec_final=[], termsim=[], reqs=[])
 
 
 # ------------------------------------------------------------------ random generator
@@ -389,6 +401,17 @@ class Gen:
             return [(k,)]
         raise ValueError(k)
 
+    REQ_SHAPES = ["G a0", "F a0", "X a0", "! X a0", "X X a0", "U a0 a1", "G F a0", "F G a0", "G > a0 X a1", "& a0 F a1",
+                  "| G a0 F a1", "G | a0 a1", "> a0 F a1", "F & a0 X a1", "! F a0", "& G a0 F a1"]
+    req_rate = 0.45
+
+    def requirement(self):
+        """a temporal requirement whose verdict is likely to be undecided until late (biased rows)"""
+        toks = self.rng.choice(self.REQ_SHAPES)
+        n = len(F.atoms(F.parse_tokens(toks.split())))
+        hi = toks[0] in "G" or toks.startswith("| G") or toks.startswith("& G")
+        return toks, [self.cond(bias=(0.85 if (hi and k == 0) else 0.3), const=0) for k in range(n)]
+
     def ensure_yield(self, ctx, body):
         ys = {"TK", "WT", "WF", "WU", "DO", "DOF", "DOU", "DS", "DSF", "DSU", "TE", "TS"}
         if not any(s[0] in ys for s in walk(body)):
@@ -430,6 +453,13 @@ class Gen:
                 monitors=[], compose=comp))
         for m in range(nm):
             p["scenarios"][rng.randrange(ns)]["monitors"].append(m)
+        p["reqs"] = []
+        for i in range(ns):
+            p["scenarios"][i]["reqs"] = []
+            if rng.random() < self.req_rate:
+                for _ in range(rng.choice([1, 1, 2])):
+                    p["scenarios"][i]["reqs"].append(len(p["reqs"]))
+                    p["reqs"].append(self.requirement())
         nrec = rng.randint(0, 2)
         p["records"] = list(range(nrec))
         p["rec_init"] = [10] if rng.random() < 0.3 else []
